@@ -12,6 +12,10 @@ type callCont func(st *State, fr *Frame, res Val)
 
 func (e *Engine) contractKey(fn *ssa.Function) string {
 	fn = bodyOf(fn)
+	if fn.Synthetic != "" && !strings.HasPrefix(fn.Synthetic, "instance of") {
+		// bound-method wrappers, thunks: no contract of their own, they are inlined
+		return ""
+	}
 	if fn.Pkg == nil && fn.Parent() == nil {
 		// instantiated or synthetic
 		if fn.Object() == nil {
@@ -141,6 +145,12 @@ func (e *Engine) callStatic(st *State, fr *Frame, callee *ssa.Function, env TEnv
 			e.trustedUsed[key] = true
 		}
 		e.rangeLoop(st, fr, c, key, e.bindParams(callee, args), args, pos, k)
+		return
+	}
+	if c != nil && c.Mode == "seqloop" && len(args) > 0 && args[len(args)-1].Fn != nil && args[len(args)-1].Fn.Fn != nil && bodyOf(callee) != e.root {
+		key := e.contractKey(callee)
+		e.callees[key] = true
+		e.seqLoop(st, fr, c, key, e.bindParams(callee, args), args, pos, k)
 		return
 	}
 	if c != nil && !c.Inline && !(body == e.root && false) {
